@@ -375,6 +375,14 @@ func nativeBasicRecv(t types.Type) (reflect.Type, bool) {
 	switch n.Obj().Pkg().Path() + "." + n.Obj().Name() {
 	case "go/token.Pos":
 		return reflect.TypeOf(token.Pos(0)), true
+	case "go/token.Token":
+		return reflect.TypeOf(token.Token(0)), true
+	case "go/types.BasicKind":
+		return reflect.TypeOf(types.BasicKind(0)), true
+	case "go/types.BasicInfo":
+		return reflect.TypeOf(types.BasicInfo(0)), true
+	case "go/types.ChanDir":
+		return reflect.TypeOf(types.ChanDir(0)), true
 	}
 	return nil, false
 }
